@@ -251,6 +251,19 @@ def run(prog, rep, tier):
                    'constructor calls %s unconditionally: chunk 0 is decrypted without tag verification in the default (authenticated) mode' % b.term.cmethod,
                    nw.loc(b.idx))
 
+    # ---------------- R04.7 "chunks whose authentication tag verified": the authenticated loader compares the whole computed tag with the stored one
+    # before the plaintext is exposed (same rule as R03.1, the repair reader shares load_in_cache with the normal reader)
+    from .c03 import check_decrypt_site
+    nd = 0
+    for body in mla.bodies:
+        if not body.defpath.startswith('layers::encrypt::'):
+            continue
+        for b in body.calls():
+            if b.term.cdef == 'crypto::aesgcm::AesGcm256::decrypt':
+                nd += 1
+                rep.fn(body)
+                check_decrypt_site(prog, body, b, rep, RULE='R04.7')
+    rep.floor('R04.7', nd, 1, 'authenticated decrypt sites in layers::encrypt')
     # ---------------- R04.6 "contiguously from the start": a chunk only verifies at its own position -- the nonce binds the chunk number
     bn = one_body(prog, rep, 'R04.6', 'mla', exact='layers::encrypt::build_nonce')
     if bn is not None:
